@@ -17,7 +17,8 @@ ENGINES = ["E0 core", "E1 tables", "E4 linform"]
 TECHNIQUE = "literal-table comparison against an embedded IUPAC table + linear/monomial normal forms of the mass formulas (ast)"
 CLAIM = ("Decides: _elements agrees with the IUPAC table (118 symbols, names, abridged weights within 2.5 units of the last common decimal, mass "
          "numbers within 4 u); derived tuples use the right columns; Z<->index offsets; mass = sum v*m[k-1] - v0*m_e; "
-         "case-normalised lookup; mass fractions share one term.")
+         "case-normalised lookup; mass fractions share one term."
+         ' Both mass terms accumulated; stored mass wins; defaults. Shared rule A1: no swapped same-named arguments at resolved in-package call sites.')
 DOES_NOT_DECIDE = "float rounding; masses supplied through data['mass']; additivity over formulas (follows from C01 + R3 only modulo arithmetic)"
 ASSUMPTIONS = ["embedded IUPAC abridged standard atomic weights (2013-2021 revisions agree within tolerance)",
                "CODATA electron mass 5.4858e-4 u"]
